@@ -40,6 +40,7 @@ func main() {
 	repo := flag.String("repo", "/repo", "goflow checkout")
 	out := flag.String("out", "", "output directory")
 	shim := flag.String("shim", "/verif/shim", "shim sources")
+	mode := flag.String("mode", "order", "order | conc (order + sync shim + package-level variable registry)")
 	flag.Parse()
 	if *out == "" {
 		fmt.Fprintln(os.Stderr, "need -out")
@@ -130,17 +131,31 @@ func main() {
 				sps = append(sps, splice{tf.Offset(rs.For), tf.Offset(rs.Body.Lbrace) + 1, hdr})
 				return true
 			})
+			usesSync := false
+			if *mode == "conc" {
+				for _, imp := range f.Imports {
+					if imp.Path.Value == `"sync"` {
+						usesSync = true
+						// keep the local name `sync`, bind it to the cooperative shim
+						sps = append(sps, splice{tf.Offset(imp.Pos()), tf.Offset(imp.End()), `sync "github.com/nyaruka/goflow/verifshim/mcsync"`})
+						syncFiles++
+					}
+				}
+			}
 			if len(sps) == 0 {
 				continue
 			}
+			onlySync := usesSync && len(sps) == 1
 			sort.Slice(sps, func(a, b int) bool { return sps[a].start > sps[b].start })
 			text := string(src)
 			for _, sp := range sps {
 				text = text[:sp.start] + sp.text + text[sp.end:]
 			}
 			// add the import right after the package clause
-			pe := tf.Offset(f.Name.End())
-			text = text[:pe] + "\nimport mcorder \"github.com/nyaruka/goflow/verifshim/mcorder\"\n" + text[pe:]
+			if !onlySync {
+				pe := tf.Offset(f.Name.End())
+				text = text[:pe] + "\nimport mcorder \"github.com/nyaruka/goflow/verifshim/mcorder\"\n" + text[pe:]
+			}
 			dst := filepath.Join(*out, strings.ReplaceAll(rel, "/", "__"))
 			if err := os.WriteFile(dst, []byte(text), 0o644); err != nil {
 				fmt.Fprintln(os.Stderr, err)
@@ -149,17 +164,70 @@ func main() {
 			overlay[fname] = dst
 		}
 	}
-	// the virtual shim package
-	shimFiles, _ := filepath.Glob(filepath.Join(*shim, "mcorder", "*.go"))
-	for _, sf := range shimFiles {
-		overlay[filepath.Join(*repo, "verifshim", "mcorder", filepath.Base(sf))] = sf
+	// the virtual shim packages
+	shimPkgs := []string{"mcorder"}
+	if *mode == "conc" {
+		shimPkgs = append(shimPkgs, "mcsync", "mcglobals")
+		// R-globals: per package, a generated file registering pointers to all package-level variables
+		for _, pkg := range pkgs {
+			if strings.Contains(pkg.PkgPath, "/antlr/gen") || strings.Contains(pkg.PkgPath, "/verifshim") || strings.Contains(pkg.PkgPath, "/cmd/") || pkg.Name == "main" || len(pkg.Syntax) == 0 {
+				continue
+			}
+			var names []string
+			dir := ""
+			for _, f := range pkg.Syntax {
+				fname := pkg.Fset.File(f.Pos()).Name()
+				if strings.HasSuffix(fname, "_test.go") || !strings.HasPrefix(fname, *repo) {
+					continue
+				}
+				dir = filepath.Dir(fname)
+				for _, d := range f.Decls {
+					gd, ok := d.(*ast.GenDecl)
+					if !ok || gd.Tok != token.VAR {
+						continue
+					}
+					for _, sp := range gd.Specs {
+						for _, n := range sp.(*ast.ValueSpec).Names {
+							if n.Name != "_" {
+								names = append(names, n.Name)
+							}
+						}
+					}
+				}
+			}
+			if len(names) == 0 || dir == "" {
+				continue
+			}
+			sort.Strings(names)
+			var sb strings.Builder
+			fmt.Fprintf(&sb, "package %s\n\nimport mcglobals \"github.com/nyaruka/goflow/verifshim/mcglobals\"\n\nfunc init() {\n\tmcglobals.Register(%q, map[string]any{\n", pkg.Name, pkg.PkgPath)
+			for _, n := range names {
+				fmt.Fprintf(&sb, "\t\t%q: &%s,\n", n, n)
+			}
+			sb.WriteString("\t})\n}\n")
+			rel, _ := filepath.Rel(*repo, dir)
+			dst := filepath.Join(*out, "globals__"+strings.ReplaceAll(rel, "/", "__")+".go")
+			os.WriteFile(dst, []byte(sb.String()), 0o644)
+			overlay[filepath.Join(dir, "zz_verif_globals.go")] = dst
+			globalVars += len(names)
+		}
+	}
+	var shimFiles []string
+	for _, sp := range shimPkgs {
+		fs, _ := filepath.Glob(filepath.Join(*shim, sp, "*.go"))
+		for _, sf := range fs {
+			overlay[filepath.Join(*repo, "verifshim", sp, filepath.Base(sf))] = sf
+			shimFiles = append(shimFiles, sf)
+		}
 	}
 	ob, _ := json.MarshalIndent(map[string]any{"Replace": overlay}, "", " ")
 	os.WriteFile(filepath.Join(*out, "overlay.json"), ob, 0o644)
 	sb, _ := json.MarshalIndent(sites, "", " ")
 	os.WriteFile(filepath.Join(*out, "sites.json"), sb, 0o644)
-	fmt.Printf("vrewrite: %d map-range sites in %d files\n", len(sites), len(overlay)-len(shimFiles))
+	fmt.Printf("vrewrite: mode=%s %d map-range sites, %d files importing sync rebound, %d package-level variables registered\n", *mode, len(sites), syncFiles, globalVars)
 }
+
+var syncFiles, globalVars int
 
 func countSites(sites []site, file, fn string) int {
 	n := 0
